@@ -214,3 +214,7 @@ from props import workbench as WB   # noqa: E402
 CLAUSES.append(Clause("object_history", lambda tier: WB.fa_programs(tier, "enumerate"), WB.run_fa, quick=400, thorough=4000,
                       rule="(generate_language and *_words_up_to_n on DFA/NFA objects with a history: enumerated with the same bound before and after in-place modifications) " + WB.FA_RULE))
 KNOWN_PREDICATES = {}
+
+# coverage-guided second driver (atheris / libFuzzer through Hypothesis' fuzz_one_input) for the core clauses: (clause, quick runs, thorough runs)
+from harness.covfuzz import cov_clauses  # noqa: E402
+CLAUSES += cov_clauses('C02', CLAUSES, [('regexp', 1500, 30000), ('cfg', 800, 15000), ('pda', 800, 15000)])
